@@ -341,7 +341,34 @@ def subsNums (σ : List (Name × Term)) : Option (List (Name × Nat)) := σ.mapM
 
 def getitemOffset (op : Op) : Nat := ((paramOf op.params "offset").bind Sexp.asNat?).getD 0
 
-def unaryOp (op : Op) (a : NT) : Option NT := unary op.name a
+/-- axis / keepdims of a reduction op, decoded exactly as `evalUnary` does (`none`: malformed). -/
+def redArgs (op : Op) : Option (Option (List Int) × Bool) :=
+  let keep := match paramOf op.params "keepdims" with
+    | some b => (b.asBool?).getD false
+    | none => false
+  match paramOf op.params "axis" with
+  | some (Sexp.atom "none") => some (none, keep)
+  | none => some (none, keep)
+  | some (Sexp.atom a) => (a.toInt?.map (fun i => [i])).map fun ax => (some ax, keep)
+  | some l => (sexpInts? l).map fun ax => (some ax, keep)
+
+/-- Unary dispatch: output-axis reductions, reshape, getslice, else pointwise. -/
+def unaryOp (op : Op) (a : NT) : Option NT :=
+  match reductionOps.lookup op.name with
+  | some base =>
+    match redArgs op with
+    | some (axes, keep) => reductionAxis base axes keep a
+    | none => none
+  | none =>
+    if op.name == "reshape" then
+      match (paramOf op.params "shape").bind Sexp.asNats? with
+      | some sh => reshape sh a
+      | none => none
+    else if op.name == "getslice" then
+      match (paramOf op.params "index").bind parseIdxItems with
+      | some items => getslice items a
+      | none => none
+    else unary op.name a
 
 def binaryOp (op : Op) (a b : NT) : Option NT :=
   if op.name == "getitem" then getitem (getitemOffset op) a b else binary op.name a b
